@@ -79,6 +79,6 @@ PRESERVING = [
 
 
 def run(ctx):
-    from ..rules import undeleg
+    from ..rules import undeleg, sC23
     # the quick tier already runs the clang CFG version (about 1 s for the clang call); the thorough tier is the same analysis
-    return [pC23.rule_S1(ctx), pC23.rule_S1b(ctx), pC23.rule_S1c(ctx), pC23.rule_YL(ctx), pC23.rule_RL(ctx), undeleg.rule_undelegate(ctx)]
+    return [pC23.rule_S1(ctx), pC23.rule_S1b(ctx), pC23.rule_S1c(ctx), pC23.rule_YL(ctx), pC23.rule_RL(ctx), undeleg.rule_undelegate(ctx), sC23.rule_slots(ctx)]
